@@ -35,6 +35,9 @@ type Store struct {
 	LoseCommit map[int]bool // the committer reports success but stores nothing
 	nOpen      int
 	nCommit    int
+	// ReadHook, if set, is called before every read (without the store's
+	// lock held): a point at which the scheduler can hold the reader.
+	ReadHook func(c cid.Cid)
 }
 
 func NewStore(r *Run, name string) *Store {
@@ -47,6 +50,9 @@ func (s *Store) LinkSystem() ipld.LinkSystem {
 	ls := cidlink.DefaultLinkSystem()
 	ls.StorageReadOpener = func(_ ipld.LinkContext, l ipld.Link) (io.Reader, error) {
 		c := l.(cidlink.Link).Cid
+		if s.ReadHook != nil {
+			s.ReadHook(c)
+		}
 		s.mu.Lock()
 		defer s.mu.Unlock()
 		b, ok := s.m[c.KeyString()]
